@@ -6,7 +6,7 @@ open Cppcheck.Wire Cppcheck.VarMap
 C08 driver.  op line:  prog <tokens of the program>        (encoding: see vlib/props/c08.py `enc_*`)
                        ops  <e|l|d<x>|D<x>|u<x>|g<x> ...>   raw VariableMap event list
 output:  M <ids the model of the repaired code assigns> | S <ids lexical scoping assigns> | O <ids with the
-         pre-fix replay order> | gok <progOK> | dup <dupInScope>
+         pre-fix replay order> | gok <progOK> | dup <dupInScope> | nvh <noEnumHidesVar>
 -/
 namespace Driver.C08
 
@@ -65,6 +65,10 @@ partial def pStmt : P Stmt
     | some (x, r1) => (pUs r1).map fun (us, r') => (Stmt.decl x us, r')
     | none => none
   | "X" :: r => (pUs r).map fun (us, r') => (Stmt.expr us, r')
+  | "N" :: r =>
+    match pNat r with
+    | some (x, r1) => (pUs r1).map fun (us, r') => (Stmt.enumd x us, r')
+    | none => none
   | "B" :: r => (pStmts r).map fun (b, r') => (Stmt.block b, r')
   | "I" :: r =>
     match pCond r with
@@ -115,6 +119,10 @@ def pTop : P Top
     | some (ps, r1) => (pStmts r1).map fun (b, r') => (Top.func ps b, r')
     | none => none
   | "P" :: r => (pNames r).map fun (ps, r') => (Top.proto ps, r')
+  | "M" :: r =>
+    match pNat r with
+    | some (x, r1) => (pUs r1).map fun (us, r') => (Top.genum x us, r')
+    | none => none
   | _ => none
 
 partial def pProg : List String → Option Prog
@@ -131,6 +139,8 @@ def pOp (t : String) : Option Op :=
   else if t.startsWith "D" then (t.drop 1).toNat?.map (Op.decl · true)
   else if t.startsWith "u" then (t.drop 1).toNat?.map Op.use
   else if t.startsWith "g" then (t.drop 1).toNat?.map Op.guse
+  else if t == "s" then some .skip
+  else if t.startsWith "h" then (t.drop 1).toNat?.map Op.hide
   else none
 
 def ids (l : List VId) : String := if l.isEmpty then "-" else " ".intercalate (l.map toString)
@@ -141,12 +151,12 @@ def step (line : String) : String :=
     match pProg ts with
     | some p =>
       let ops := implProg p
-      s!"M {ids (resolve p)} | S {ids (specProg p)} | O {ids (resolveOld p)} | gok {boolStr (progOK [] p)} | dup {boolStr (dupInScope [] ops)}"
+      s!"M {ids (resolve p)} | S {ids (specProg p)} | O {ids (resolveOld p)} | gok {boolStr (progOK [] p)} | dup {boolStr (dupInScope [] ops)} | nvh {boolStr (noEnumHidesVar p)}"
     | none => "bad-prog"
   | "ops" :: ts =>
     match ts.mapM pOp with
     | some ops =>
-      s!"M {ids (run VarMap.init ops)} | S {ids (srun Spec.init ops)} | O {ids (runOld VarMap.init ops)} | gok {boolStr (globalOK 0 [] ops)} | dup {boolStr (dupInScope [] ops)}"
+      s!"M {ids (run VarMap.init ops)} | S {ids (srun Spec.init ops)} | O {ids (runOld VarMap.init ops)} | gok {boolStr (globalOK 0 [] ops)} | dup {boolStr (dupInScope [] ops)} | nvh {boolStr (noVarHidden Spec.init ops)}"
     | none => "bad-ops"
   | _ => "bad-op"
 
